@@ -102,6 +102,8 @@ static Exec execute(cs::Ctx& ctx, bool msgpack, const std::string& bytes, int L,
   if (filter) {
     JsonVariantConst fv = fdoc.as<JsonVariantConst>();
     if (dflt) err = msgpack ? deserializeMsgPack(doc, reader, DeserializationOption::Filter(fv)) : deserializeJson(doc, reader, DeserializationOption::Filter(fv));
+    else if (L & 1) err = msgpack ? deserializeMsgPack(doc, reader, nl, DeserializationOption::Filter(fv))
+                                  : deserializeJson(doc, reader, nl, DeserializationOption::Filter(fv));
     else err = msgpack ? deserializeMsgPack(doc, reader, DeserializationOption::Filter(fv), nl)
                        : deserializeJson(doc, reader, DeserializationOption::Filter(fv), nl);
   } else {
